@@ -121,9 +121,75 @@ func isMutexCall(e ast.Expr, recv string) (string, bool) {
 	return s.Sel.Name, true
 }
 
+// scepCallbacks maps each method M of scep.(*Authority) to the methods X of its SignAuthority (the
+// certificate authority itself) that M reaches through `a.signAuth.X`, directly or through other
+// methods of scep.(*Authority), whether called or passed as a method value.
+func scepCallbacks(repo string) map[string][]string {
+	fset := token.NewFileSet()
+	files := parseDir(fset, filepath.Join(repo, "scep"))
+	direct := map[string]map[string]bool{} // method -> signAuth methods
+	own := map[string]map[string]bool{}    // method -> own methods referenced
+	for _, fname := range sortedKeys(files) {
+		for _, d := range files[fname].Decls {
+			fd, ok := d.(*ast.FuncDecl)
+			if !ok || fd.Body == nil {
+				continue
+			}
+			recv, ok := recvName(fd)
+			if !ok {
+				continue
+			}
+			m := fd.Name.Name
+			direct[m], own[m] = map[string]bool{}, map[string]bool{}
+			ast.Inspect(fd.Body, func(n ast.Node) bool {
+				s, ok := n.(*ast.SelectorExpr)
+				if !ok {
+					return true
+				}
+				if in, ok := s.X.(*ast.SelectorExpr); ok && in.Sel.Name == "signAuth" {
+					if id, ok := in.X.(*ast.Ident); ok && id.Name == recv {
+						direct[m][s.Sel.Name] = true
+					}
+				}
+				if id, ok := s.X.(*ast.Ident); ok && id.Name == recv {
+					own[m][s.Sel.Name] = true
+				}
+				return true
+			})
+		}
+	}
+	if len(direct) == 0 {
+		die("scep: no methods of *Authority found")
+	}
+	if _, ok := direct["LoadProvisionerByName"]; !ok || !direct["LoadProvisionerByName"]["LoadProvisionerByName"] {
+		die("scep: (*Authority).LoadProvisionerByName no longer forwards to signAuth (callback analysis out of date)")
+	}
+	out := map[string][]string{}
+	for m := range direct {
+		seen, acc := map[string]bool{m: true}, map[string]bool{}
+		work := []string{m}
+		for len(work) > 0 {
+			x := work[0]
+			work = work[1:]
+			for c := range direct[x] {
+				acc[c] = true
+			}
+			for y := range own[x] {
+				if _, isMethod := direct[y]; isMethod && !seen[y] {
+					seen[y] = true
+					work = append(work, y)
+				}
+			}
+		}
+		out[m] = sortedKeys(acc)
+	}
+	return out
+}
+
 func tableLocks(repo string) string {
 	fset := token.NewFileSet()
 	files := parseDir(fset, filepath.Join(repo, "authority"))
+	callbacks := scepCallbacks(repo)
 	var fns []fn
 	for _, fname := range sortedKeys(files) {
 		for _, d := range files[fname].Decls {
@@ -266,6 +332,30 @@ func tableLocks(repo string) string {
 								die("%s:%s: method call inside a read-locked region (not analysed)", fname, f.Name)
 							}
 							f.Calls = append(f.Calls, call{s.Sel.Name, covered(x.Pos())})
+						}
+						// the SCEP authority calls back into this authority (scep.SignAuthority)
+						isSCEP := false
+						if in, ok := s.X.(*ast.SelectorExpr); ok && in.Sel.Name == "scepAuthority" {
+							if id, ok := in.X.(*ast.Ident); ok && id.Name == recv {
+								isSCEP = true
+							}
+						}
+						if c2, ok := s.X.(*ast.CallExpr); ok {
+							if s2, ok := c2.Fun.(*ast.SelectorExpr); ok && s2.Sel.Name == "GetSCEP" {
+								isSCEP = true
+							}
+						}
+						if isSCEP {
+							cbs, known := callbacks[s.Sel.Name]
+							if !known {
+								die("%s:%s: call of unknown scep.Authority method %s", fname, f.Name, s.Sel.Name)
+							}
+							for _, cb := range cbs {
+								if inRegion(x.Pos()) {
+									die("%s:%s: SCEP call-back inside a read-locked region (not analysed)", fname, f.Name)
+								}
+								f.Calls = append(f.Calls, call{cb, covered(x.Pos())})
+							}
 						}
 					}
 				}
